@@ -61,6 +61,9 @@ pub fn segments() -> Vec<Vec<String>> {
         s(&["---", "---"]),
         s(&["```bash", "$ not a test", "```"]),
         s(&["````markdown", "```scrut", "$ inner", "```", "````"]),
+        // a title glued on top of its block (no blank line on either side): title state must not leak from block to block
+        s(&["Title A", "```scrut", "$ cmd", "```"]),
+        s(&["# Other title", "```scrut", "$ cmd", "out", "```"]),
     ];
     let bodies: Vec<Vec<&str>> = vec![
         vec!["$ cmd"],
